@@ -520,6 +520,28 @@ pub fn check_all(obs: &Obs, out: &mut CaseOut) -> Summary {
                                         if clear_in_window && class == "key-missing" {
                                             linked_at_request.push_str("/clear-in-window");
                                         }
+                                        // The agent-level picture of the known `WriteQueues` ordering finding (uplinks engine,
+                                        // `sync-window/key-not-removed|key-stale-value/linked-observer-with-history/last-frame=before-request`):
+                                        // the lane changed the key BEFORE the sync request, the standard event for that change was
+                                        // still queued for this linked remote when `synced` went out, and it (or an event that
+                                        // supersedes it: a later operation on the key, a clear) arrives afterwards. `synced`
+                                        // overtook an older standard event; nothing was lost. A stale entry that is never put
+                                        // right, or whose state ended inside the window, does not get the facet.
+                                        if class == "key-stale" && linked_at_request == "true" {
+                                            let ended_before_request = tl.iter().enumerate().any(|(j, (_lo, _t, state))| *state == st && tl.get(j + 1).map_or(false, |x| x.1 < t_q));
+                                            let put_right_after_synced = lf.frames.iter().any(|x| {
+                                                x.kind == FrameKind::Event
+                                                    && x.ticket > t_s
+                                                    && match parse_map_event(lane, &x.body) {
+                                                        Some(MapOp::Clr) => true,
+                                                        Some(MapOp::Rem(kk)) | Some(MapOp::Upd(kk, _)) => kk == k,
+                                                        None => false,
+                                                    }
+                                            });
+                                            if ended_before_request && put_right_after_synced {
+                                                linked_at_request.push_str("/standard-event-from-before-the-request-delivered-after-synced");
+                                            }
+                                        }
                                         out.violation(
                                             "C03",
                                             format!("snapshot-outside-window/map/{class}/linked-at-request={linked_at_request}"),
